@@ -401,7 +401,13 @@ pub fn run(run: &Run) -> i32 {
         // long shapes: lists of 9-10 indices; every history up to a stated depth (no closure claim)
         let long_depth = if run.thorough() { 5 } else { 4 };
         let mut per_long = Vec::new();
-        for (r, c) in [(10, 1), (1, 10), (9, 2), (2, 9)] {
+        // long dimensions just past 8, 16, 32, 64 (thorough: 256)
+        let mut long_shapes = vec![(10usize, 1usize), (1, 10), (9, 2), (2, 9), (17, 1), (1, 17), (18, 2), (2, 18), (33, 1), (1, 33), (65, 1), (1, 65)];
+        if run.thorough() {
+            long_shapes.extend([(257, 1), (1, 257), (65, 2), (2, 65)]);
+        }
+        for (r, c) in long_shapes {
+            let long_depth = if r.max(c) > 18 { long_depth - 1 } else { long_depth };
             let (s, t, d, _) = explore(r, c, true, long_depth, usize::MAX, &mut acc);
             graph.0 += s;
             graph.1 += t;
@@ -416,7 +422,7 @@ pub fn run(run: &Run) -> i32 {
         run,
         acc,
         Coverage {
-            rule: "explicit-state BFS from the empty matrix of each listed shape; transition = one real call of insert/remove/toggle on every position, clear_row/clear_col on every index, insert_row/set_row/insert_col/set_col with every index list of length <= 2 (repeats and both orders included) plus the full ascending/descending list; state key = both ordered adjacency lists (complete object contents, so merged states have identical futures); search runs until no new state appears (closure) unless the state cap is hit (then reported). Every transition is executed on the implementation, so traces_validated_against_impl = transitions. In addition the long shapes 10x1, 1x10, 9x2, 2x9 with a restricted menu (bulk operations with lists of 9-10 indices in ascending / descending / partial / repeating order, single-position edits at the ends) are explored for every history up to depth 4 (5 thorough); that part is depth-bounded, not closed. Non-trivial = transition taken from a non-empty matrix.".into(),
+            rule: "explicit-state BFS from the empty matrix of each listed shape; transition = one real call of insert/remove/toggle on every position, clear_row/clear_col on every index, insert_row/set_row/insert_col/set_col with every index list of length <= 2 (repeats and both orders included) plus the full ascending/descending list; state key = both ordered adjacency lists (complete object contents, so merged states have identical futures); search runs until no new state appears (closure) unless the state cap is hit (then reported). Every transition is executed on the implementation, so traces_validated_against_impl = transitions. In addition the long shapes 10x1, 9x2, 17x1, 18x2, 33x1, 65x1 (thorough 257x1, 65x2) and their transposes with a restricted menu (bulk operations with full-length lists in ascending / descending / partial / repeating order, single-position edits at the ends) are explored for every history up to depth 4 (5 thorough); that part is depth-bounded, not closed. Non-trivial = transition taken from a non-empty matrix.".into(),
             exhaustive: all_closed,
             extra,
             graph: Some(graph),
